@@ -682,6 +682,15 @@ def selftest(job, seed=0):
             got = run(lambda: npx.searchsorted(SymArray(X), SymArray([Q(repr(q)) for q in qs]), side=side))
             job.validate(f"np.searchsorted(side={side})", float([int(j) for j in got.d] == np.searchsorted(np.array(xs), np.array(qs), side=side).tolist()), 1.0,
                          inputs={"x": xs, "q": qs})
+        A = np.array(ys)
+        for label, want, sym in (
+                ("np.prod", np.prod(A), lambda: npx.prod(SymArray(Y))), ("np.trapezoid", np.trapezoid(A, np.array(xs)), lambda: npx.trapezoid(SymArray(Y), SymArray(X))),
+                ("np.average(weights)", np.average(A, weights=np.abs(A) + 1), lambda: npx.average(SymArray(Y), weights=SymArray([abs(v) + 1 for v in Y]))),
+                ("np.mean", np.mean(A), lambda: npx.mean(SymArray(Y))), ("np.sign sum", np.sign(A).sum(), lambda: npx.sum(npx.sign(SymArray(Y)))),
+                ("np.cumprod last", np.cumprod(A)[-1], lambda: npx.cumprod(SymArray(Y)).d[-1]), ("np.repeat", np.repeat(A, 2)[3], lambda: npx.repeat(SymArray(Y), 2).d[3]),
+                ("np.tile", np.tile(A, 2)[n + 1], lambda: npx.tile(SymArray(Y), 2).d[n + 1]), ("np.divide", np.divide(A, 4.0)[1], lambda: npx.divide(SymArray(Y), Q(4)).d[1]),
+                ("np.subtract", np.subtract(A, A[::-1])[0], lambda: npx.subtract(SymArray(Y), SymArray(list(reversed(Y)))).d[0])):
+            job.validate(label, float(run(sym)), float(want), inputs={"y": ys})
         got = run(lambda: npx.atleast_1d(Q(repr(ys[0]))).squeeze())
         job.validate("np.atleast_1d(scalar).squeeze()", float(got), float(np.atleast_1d(ys[0]).squeeze()))
     _selftest_pandas_and_ints(job, r, run, npx)
